@@ -97,6 +97,15 @@ def logspace_sigma(R, k, cond):
     return [1.0] + mid + [1.0 / cond]
 
 
+def cluster_sigma(R, k, cond):
+    """k singular values: a cluster in [0.5, 1] (largest 1) and ONE small value 1/cond - the
+    spectrum on which Krylov methods plateau until the cluster is resolved."""
+    if k <= 2 or cond <= 2.0:
+        return logspace_sigma(R, k, cond)
+    mid = sorted((R.uniform(0.5, 1.0) for _ in range(k - 2)), reverse=True)
+    return [1.0] + mid + [1.0 / cond]
+
+
 def round_sig(x, n=6):
     if x == 0 or not math.isfinite(x):
         return x
@@ -104,4 +113,4 @@ def round_sig(x, n=6):
 
 
 __all__ = ["sub_rng", "key", "V", "fnum", "finite", "is_qmat", "BaseHooks", "ref_request",
-           "logspace_sigma", "round_sig", "qalg", "gens", "np"]
+           "logspace_sigma", "cluster_sigma", "round_sig", "qalg", "gens", "np"]
